@@ -273,8 +273,8 @@ fn judge_sdk_store(run: &Run, sp: &Spec) -> CaseResult {
         Ok(Ok(b)) => b,
         Ok(Err(e)) => {
             run.count("a:generator_rejected");
-            let short: String = e.chars().take(60).collect();
-            run.count(&format!("a:rejected:{short}"));
+            let short: String = e.split_whitespace().collect::<Vec<_>>().join(" ").chars().filter(|c| !c.is_ascii_hexdigit() || c.is_ascii_alphabetic()).take(150).collect();
+            run.count(&format!("a:rejected:flow{}:{}:{short}", sp.flow, if sp.no_embed { "sidecar" } else { "embedded" }));
             return Ok(());
         }
         Err(p) => {
